@@ -592,6 +592,18 @@ func TestCheck(t *testing.T) {
 			rec.Fail("closure", bad, "", msg)
 		}
 	}
+	// PAR1 at the limit files + volumes == 256: all volumes gone, a file lost, then only the highest-numbered volume arrives
+	if cfg.Mine(77) {
+		c := Case{Format: "par1", N: 56}
+		for i := 0; i < 200; i++ {
+			c.Files = append(c.Files, scen.FileSpec{Name: fmt.Sprintf("lim%03d.bin", i), Size: 1 + (i*5)%19, Kind: "random", Seed: uint64(500 + i)})
+		}
+		for v := 0; v < 56; v++ {
+			c.Actions = append(c.Actions, Action{Kind: "delvol", Vol: v})
+		}
+		c.Actions = append(c.Actions, Action{Kind: "damage", Damage: scen.Damage{Op: "delete", File: 100}}, Action{Kind: "repair"}, Action{Kind: "restorevol", Vol: 55}, Action{Kind: "verify"}, Action{Kind: "repair", DC: true})
+		do(c)
+	}
 	cfg.SetRapid(cfg.N(600, 5000), 1)
 	rapid.Check(t, func(rt *rapid.T) {
 		if !do(genCase(rt, cfg.N(25, 40))) {
